@@ -26,6 +26,7 @@ pub fn main() {
         "faults" => crate::e2e::faults::run(&args),
         "tlsworld" => crate::e2e::tlsworld::run(&args),
         "deadline" => crate::e2e::deadline::run(&args),
+        "clientapi" => crate::e2e::clientapi::run(&args),
         "sniff" => crate::sniff::run(&args),
         "panics" => crate::e2e::panics::run(&args),
         "iolab" => crate::iolab::run(&args),
